@@ -149,7 +149,14 @@ fn gen_value(rng: &mut Rng, bs: u32) -> Vec<u8> {
                 1 + rng.below(40)
             }
         }
-        _ => 100 + rng.below(200),
+        _ => {
+            if rng.chance(1, 40) {
+                // at and beyond the u16 boundary of a length field
+                *rng.pick(&[65_535u64, 65_536, 65_537, 70_000, 131_073])
+            } else {
+                100 + rng.below(200)
+            }
+        }
     } as usize;
     let fill = *rng.pick(&ALPHA);
     (0..len).map(|i| if i < 4 { rng.below(256) as u8 } else { fill }).collect()
@@ -351,7 +358,10 @@ pub fn tables(seed: u64, cases: u64, st: &mut Stats, drv: &mut Drv) {
         if let Err(e) = r {
             st.oracle_failures.push(format!("C12 panic in the table writer/readers: {}: {ctx}: items `{}`", panic_text(e), clip(&show_ents(&items), 2000)));
         }
-        block_codec_case(&mut rng, &items, &ctx, st, drv);
+        let r = catch_unwind(AssertUnwindSafe(|| block_codec_case(&mut rng, &items, &ctx, st, drv)));
+        if let Err(e) = r {
+            st.oracle_failures.push(format!("C12 panic in the data block encoder / decoder: {}: {ctx}: items `{}`", panic_text(e), clip(&show_ents(&items), 2000)));
+        }
     }
 }
 
@@ -1430,11 +1440,20 @@ fn hash_enc_case(rng: &mut Rng, case: u64, st: &mut Stats, drv: &mut Drv) {
     let big = rng.chance(1, 12);
     let nk = if big { 120 + rng.below(100) as usize } else { 1 + rng.below(20) as usize };
     let keys = numbered_keys(rng, nk);
-    let items: Vec<Ent> = gen_source(rng, &keys, 30, if big { 3 } else { 5 }, 90);
+    let mut items: Vec<Ent> = gen_source(rng, &keys, 30, if big { 3 } else { 5 }, 90);
+    let mut ri = *rng.pick(&[1u8, 2, 16]);
+    if rng.chance(1, 6) {
+        // boundary of the hash index marker space: exactly 253 .. 257 restart intervals (254 = FREE, 255 = CONFLICT)
+        ri = *rng.pick(&[1u8, 1, 2]);
+        let intervals = 253 + rng.below(5) as usize;
+        let n = intervals * ri as usize - rng.below(u64::from(ri)) as usize;
+        let ks = numbered_keys(rng, n);
+        items = ks.into_iter().map(|k| Ent { key: k, seqno: rng.below(50), vt: 0, val: vec![b'v'] }).collect();
+        st.count(&format!("filters.hashenc.boundary_{intervals}_intervals"));
+    }
     if items.is_empty() {
         return;
     }
-    let ri = *rng.pick(&[1u8, 2, 16]);
     let ratio = *rng.pick(&[0.1f32, 0.75, 1.33, 8.0]);
     let iv: Vec<_> = items.iter().map(Ent::to_internal).collect();
     let bytes = DataBlock::encode_into_vec(&iv, ri, ratio).unwrap();
